@@ -228,7 +228,20 @@ func SpellLit(r *rand.Rand, val string, form byte, av Avoid) string {
 	switch form {
 	case '`':
 		b.WriteByte('`')
-		b.WriteString(val)
+		if r.Intn(6) == 0 {
+			// a carriage return inside a raw literal is not part of its value (as in Go; both front ends
+			// discard it): a CRLF file with a multi-line raw literal denotes the same grammar
+			at := 0
+			if len(val) > 0 {
+				at = r.Intn(len(val) + 1)
+				for at < len(val) && !utf8.RuneStart(val[at]) {
+					at++
+				}
+			}
+			b.WriteString(val[:at] + "\r" + val[at:])
+		} else {
+			b.WriteString(val)
+		}
 		b.WriteByte('`')
 	case '\'':
 		c, _ := utf8.DecodeRuneInString(val)
